@@ -1,11 +1,12 @@
 import RsModel.Lemmas.LinesLeaves
 import RsModel.Lemmas.CodecLines
+import RsModel.Lemmas.CombModesL
 /-! # columns = false: `map()` attributes every generated line as the stream does — whole trees, cold caches -/
 namespace Rs
 
 mutual
 def Src.ModeHypL : Src → Prop
-  | .sms t _ map _ inner _ => inner = none ∧ IsAscii t ∧ t.length ≤ USIZE_MAX ∧ sortedFrom 1 0 (decode map.mappings) ∧ MapIdxOK map
+  | .sms t _ map _ inner _ => (∀ im, inner = some im → MapIdxOK im) ∧ IsAscii t ∧ t.length ≤ USIZE_MAX ∧ sortedFrom 1 0 (decode map.mappings) ∧ MapIdxOK map
   | .concat cs => cs.ModeHypsL
   | .replace inner rs => inner.ModeHypL ∧ (∀ r ∈ rs, r.start ≤ r.stop) ∧ (replaceSource inner.src rs).length + 1 < 2 ^ 32
   | .cached _ inner => inner.ModeHypL ∧ IsAscii inner.src ∧ inner.src.length ≤ USIZE_MAX
@@ -20,8 +21,11 @@ theorem Src.modeHypL_base : ∀ (s : Src), s.ModeHypL → s.WF ∧ s.PosHyp fals
   | .raw .., _ | .rawStr .., _ | .rawBuf .., _ | .orig .., _ => ⟨trivial, trivial, trivial⟩
   | .sms t name map origSrc inner remove, h => by
     simp only [Src.ModeHypL] at h
-    obtain ⟨rfl, ha, hl, _, hidx⟩ := h
-    exact ⟨textOK_of_ascii t ha hl, ⟨ha, hl, fun h => by cases h⟩, hidx⟩
+    obtain ⟨hinner, ha, hl, _, hidx⟩ := h
+    refine ⟨textOK_of_ascii t ha hl, ⟨ha, hl, fun h => by cases h⟩, ?_⟩
+    cases inner with
+    | none => exact hidx
+    | some im => exact ⟨hidx, hinner im rfl⟩
   | .concat cs, h => by
     simp only [Src.ModeHypL] at h
     simpa [Src.WF, Src.PosHyp, Src.IdxHyp] using SrcList.modeHypsL_base cs h
@@ -82,9 +86,13 @@ theorem Src.m3l : ∀ (s : Src), s.ModeHypL → s.ids.Nodup → ∀ (σF σN : S
     exact ⟨streamOriginal_linesSorted t name, streamOriginal_linesDecls t name, streamOriginal_linesEq t name⟩
   | .sms t name map origSrc inner remove, h, _, σF, σN, _, _ => by
     simp only [Src.ModeHypL] at h
-    obtain ⟨rfl, ha, hl, hs, _⟩ := h
+    obtain ⟨_, ha, hl, hs, _⟩ := h
     simp only [Src.stream]
-    exact ⟨streamSM_linesSorted t map, streamSM_linesDecls t map, streamSM_linesEq t map hs⟩
+    cases inner with
+    | none => exact ⟨streamSM_linesSorted t map, streamSM_linesDecls t map, streamSM_linesEq t map hs⟩
+    | some im =>
+      obtain ⟨c1, c2, c3⟩ := streamCombined_m3l t map name origSrc im remove
+      exact ⟨c1, c2, c3⟩
   | .concat .nil, _, _, σF, σN, _, _ => by
     simp only [Src.stream]
     exact ⟨by simp [concatStream, concatGo, chunkMs, sortedFrom], rfl, fun _ => rfl⟩
